@@ -227,6 +227,11 @@ S["loop_weak_then_plain"] = dict(
           E("B", group="g", emit_default=0)],
     conns=[C("A", "B", "eo", "ti2", weak=True), C("A", "B", "eo", "ti"),
            C("B", "A", "eo", "ti", weak=True)])
+S["loop_weak_then_plain_unsettled"] = dict(
+    until=2, max_loop=4, groups=G1,
+    sims=[E("A", group="g", init_event=0, emit_default=0), E("B", group="g", emit_default=0)],
+    conns=[C("A", "B", "eo", "ti2", weak=True), C("A", "B", "eo", "ti"),
+           C("B", "A", "eo", "ti", weak=True)])
 # a loop that never settles and whose events carry the value None
 S["loop_unsettled_none"] = dict(
     until=2, max_loop=3, groups=G1,
@@ -254,9 +259,10 @@ S["sibling_groups"] = dict(
     until=2, max_loop=4, groups={"g": None, "g2": None},
     sims=[E("A", group="g", init_event=0, emit=[0, 0], next=[None, None, 1]),
           E("B", group="g", emit=[0, 0]),
-          E("P", group="g2", emit=[0]), E("Q", group="g2", emit=[0])],
+          E("P", group="g2", emit=[0]), E("Q", group="g2", emit=[0]), E("R", group="g2")],
     conns=[C("A", "B", "eo", "ti"), C("B", "A", "eo", "ti", weak=True),
-           C("A", "P", "eo", "ti"), C("P", "Q", "eo", "ti"), C("Q", "P", "eo", "ti", weak=True)])
+           C("A", "P", "eo", "ti"), C("P", "Q", "eo", "ti"), C("Q", "P", "eo", "ti", weak=True),
+           C("A", "R", "eo", "ti")])
 # ---- asynchronous requests ----------------------------------------------------------
 S["async_1_2_3"] = dict(
     until=4,
